@@ -1,24 +1,24 @@
-INIT TraceInit
-NEXT TraceNext
+SPECIFICATION Spec
 CONSTANTS
-  Calls = {"a", "b", "c"}
+  Calls = {"a", "b"}
   T = 3
-  MaxNow = 16
+  MaxNow = 9
   FixedPort = FALSE
-  CallCfg <- G3same
+  CallCfg <- C2udp
   ReplyClasses = {"valid"}
   StrayClasses = {}
   MaxReplies = 1
   MaxStray = 0
-  MaxEnter = 2
-  MaxDelay = 2
-  PeerFaults = {}
+  MaxEnter = 1
+  MaxDelay = 1
+  PeerFaults = {"slowstall"}
   DeadlineBeforeLock = FALSE
   NoGuard = FALSE
   GuardPerClient = FALSE
   RearmPerRead = FALSE
   NoCloseOnError = FALSE
-  RearmAfterConnect = FALSE
+  RearmAfterConnect = TRUE
+VIEW View
 CHECK_DEADLOCK FALSE
-CONSTRAINT HighWater
-POSTCONDITION Report
+INVARIANT BoundedReturn
+INVARIANT DeadlineFromAsk
